@@ -630,12 +630,14 @@ class Transaction:
         return ReadOnlyList(self._outputs)
 
     def _add(self, existing_ios: List, new_ios: Iterable[InputOutput], reset=False) -> 'Transaction':
-        for txio in new_ios:
-            txio.tx_ref = self.ref
-            txio.position = len(existing_ios)
-            existing_ios.append(txio)
-        if reset:
-            self._reset()
+        try:
+            for txio in new_ios:
+                txio.tx_ref = self.ref
+                txio.position = len(existing_ios)
+                existing_ios.append(txio)
+        finally:
+            if reset:
+                self._reset()
         return self
 
     def add_inputs(self, inputs: Iterable[Input]) -> 'Transaction':
